@@ -5,7 +5,7 @@ open SgVerif.Proto
 C37 driver.  One line per TI trace line of a generated program:
    <n> <name> <canonical full argument list of the call, as the program issued it>  =>  <tokens found in the trace after the name>
 * expected action  := parse n 6 name canonical          (all optional fields present)
-* DISAGREE  when the model writer `Action.print false` does not produce the trace tokens
+* DISAGREE  when the model writer `Action.print true` (the repaired writer, fix commit in /repo) does not produce the trace tokens
 * MONFAIL   when reading the trace tokens back (`parse`, default datatype 6 = MPI_BYTE as after a bare `init`) does not
             give the expected action: the replayer would re-issue a different call.
 -/
@@ -25,7 +25,7 @@ def judge (q a : List String) : Verdict :=
       | some act =>
         if act.name != name then .bad
         else
-          let model := act.print false
+          let model := act.print true
           match parse n 6 name obs with
           | some back =>
             if back != act then .monfail s!"trace line reads back as {repr back} instead of {repr act}"
